@@ -11,7 +11,7 @@ case = {"rules": [rule...], "pipe": False|True|"state", "fmt": "default"|"test"|
            | "type" (keyword boolean) | "cond" (condition names a missing detection); prefix "n" = used below a NOT
  "noteq": the backend class has convert_not_as_not_eq = True (negation rendered with != / not_* expressions)
  correlation rule {"k": "c", "refs": [positions], "gen": bool, "stage": "ok"|"pipe"|"fin"|"crash"}
-Rule number i is named r<i>.
+Rule number i is named r<i>; a rule with "as": j is the same document as rule j repeated (same name, title, content).
 """
 from dataclasses import dataclass, field
 import yaml
@@ -50,6 +50,7 @@ class FailFinalisation(QueryPostprocessingTransformation):
 
 def rule_doc(i, r, names, force_nogen=False):
     name = names[i]
+    i = r.get("as", i)        # a repeated document: the same text as rule number r["as"] (an equal, distinct object)
     if r["k"] == "c":
         return {"title": "C%d" % i, "name": name,
                 "correlation": {"type": "event_count", "rules": [names[j] for j in r["refs"]],
@@ -223,7 +224,7 @@ def alone(case, names, i):
 
 
 def run_collection(case):
-    names = ["r%d" % i for i in range(len(case["rules"]))]
+    names = ["r%d" % r.get("as", i) for i, r in enumerate(case["rules"])]
     be = make_backend(case, names, case["collect"])
     col = collection(case, names, range(len(names)))
     out = {}
@@ -235,6 +236,9 @@ def run_collection(case):
     order = [r.name for r in col.rules]
     pos = {id(r): k for k, r in enumerate(col.rules)}
     out["order"] = [int(n[1:]) for n in order]
+    # records and references are identified by object identity (position in the collection), never by equality
     out["errors"] = [[pos.get(id(r), -1), type(e).__name__] for r, e in be.errors]
+    out["refpos"] = [[pos.get(id(ref.rule), -1) for ref in r.referenced_rules] for r in col.rules
+                     if hasattr(r, "referenced_rules")]
     out["alone"] = [alone(case, names, i) for i in range(len(names))]
     return out
